@@ -8,6 +8,8 @@ mod network;
 mod routing;
 pub mod rpc;
 pub mod types;
+#[cfg(bmwill_anemo_verif)]
+pub mod verif;
 
 pub use config::{Config, QuicConfig};
 pub use error::{Error, Result};
